@@ -211,3 +211,404 @@ Proof.
     + exfalso. num.
   - (* TClose *) cases; unfold inv_n, inv_num; prj; rw; repeat split; auto; num.
 Qed.
+
+(** ** structural invariants: FIFO transport, emitted frames parse to the completed sends,
+       the receiver's results are a function of the consumed frames *)
+Lemma parse_from_snoc s l f :
+  parse_from s (l ++ [f]) =
+  let '(s1, o1) := parse_from s l in let '(s2, o2) := parse_step s1 f in (s2, o1 ++ o2).
+Proof.
+  rewrite parse_from_app. destruct (parse_from s l) as [s1 o1]. cbn [parse_from].
+  destruct (parse_step s1 f) as [s2 o2]. now rewrite app_nil_r.
+Qed.
+
+Lemma feed_all_snoc m r l f :
+  feed_all m r (l ++ [f]) =
+  let '(m1, r1, o1) := feed_all m r l in let '(m2, r2, o2) := feed m1 r1 f in (m2, r2, o1 ++ o2).
+Proof.
+  revert m r; induction l as [|x l IH]; intros m r; cbn [app feed_all].
+  - destruct (feed m r f) as [[m2 r2] o2]. now rewrite app_nil_r.
+  - destruct (feed m r x) as [[m1 r1] o1]. rewrite IH.
+    destruct (feed_all m1 r1 l) as [[m2 r2] o2]. destruct (feed m2 r2 f) as [[m3 r3] o3]. now rewrite app_assoc.
+Qed.
+
+Definition op_parse (o : sop) (cu : list N) (ps : pst) (dropped : bool) : Prop :=
+  (dropped = false -> ps <> PFin) /\ (dropped = true -> o = SIdle) /\
+  match o with
+  | SIdle => True
+  | SData cs _ _ first _ fin => (if first then cu = [] else ps = PData cu) /\ (cs = false -> fin = true)
+  | SChunkIdle first _ => if first then cu = [] else ps = PData cu
+  | SPorts _ first _ => if first then cu = [] else ps = PPorts cu
+  end.
+
+Definition inv_str (md mp : N) (s : st) : Prop :=
+  consumed s ++ rxq s ++ link s ++ evq s = emitted s /\
+  (exists ps, parse_from PNone (emitted s) = (ps, completed s) /\ op_parse (op s) (cur s) ps (tx_dropped s)) /\
+  feed_all CAny (rinit md mp) (consumed s) = (cm s, rcv s, delivered s).
+
+Lemma inv_str_init c md mp : inv_str md mp (init c md mp).
+Proof.
+  unfold inv_str, init; prj. repeat split; auto. exists PNone. repeat split; auto; intros; discriminate.
+Qed.
+
+Lemma try_chunks_parse fuel ck : 1 <= ck -> forall (data : list N) (first : bool) (slots : N) (ps : pst) (acc : list N),
+  (length data < fuel)%nat -> ps <> PFin -> data <> [] ->
+  (if first then acc = [] else ps = PData acc) ->
+  let '(fs, ok) := try_chunks fuel ck data first slots in
+  exists ps', ps' <> PFin /\
+    parse_from ps fs = (if ok then PNone else ps', if ok then [MData (acc ++ data)] else []).
+Proof.
+  intros Hck. induction fuel as [|fuel IH]; intros data first slots ps acc Hf Hps Hne Hfirst; [lia|].
+  cbn [try_chunks]. destruct data as [|x data']; [congruence|]. set (data := x :: data') in *.
+  destruct (slots =? 0).
+  { exists ps. split; auto. }
+  set (k := N.to_nat (N.min (len data) ck)).
+  assert (Hk : (1 <= k <= length data)%nat) by (subst k data; rewrite len_cons; unfold len; cbn [length]; lia).
+  assert (Hc : firstn k data <> []).
+  { subst data. destruct k; [lia|]. cbn. congruence. }
+  destruct (skipn k data) as [|y r'] eqn:Esk.
+  - (* last chunk *)
+    destruct fuel as [|fuel']; [cbn [length] in Hf; lia|]. cbn [try_chunks].
+    exists PNone. split; [discriminate|].
+    assert (Hall : firstn k data = data).
+    { rewrite <- (firstn_skipn k data) at 2. rewrite Esk. now rewrite app_nil_r. }
+    rewrite Hall. cbn [parse_from parse_step].
+    destruct ps; try congruence; destruct first; subst; try discriminate; cbn [app]; try reflexivity.
+    all: try (injection Hfirst as <-; reflexivity).
+  - set (r := y :: r') in *.
+    assert (Hrl : (length r < fuel)%nat).
+    { assert (length r = length data - k)%nat by (rewrite <- Esk; apply skipn_length). lia. }
+    assert (Hps' : (if first then PData [] else ps) = PData acc) by (destruct first; subst; auto).
+    specialize (IH r false (slots - 1) (PData (acc ++ firstn k data)) (acc ++ firstn k data) Hrl
+                  ltac:(discriminate) ltac:(subst r; discriminate) eq_refl).
+    destruct (try_chunks fuel ck r false (slots - 1)) as [fs ok].
+    destruct IH as (ps' & Hps'n & IH). exists ps'. split; auto.
+    cbn [parse_from]. 
+    assert (Hstep : parse_step ps (FData first false (firstn k data)) = (PData (acc ++ firstn k data), [])).
+    { unfold parse_step. destruct ps; try congruence; rewrite Hps'; reflexivity. }
+    rewrite Hstep, IH. cbn [app].
+    destruct ok; [|reflexivity]. f_equal. f_equal. f_equal. rewrite <- app_assoc. f_equal.
+    subst r. rewrite <- Esk. apply firstn_skipn.
+Qed.
+
+Lemma parse_emit ps cs f ps' o :
+  parse_step ps f = (ps', o) ->
+  forall fs, parse_from PNone fs = (ps, cs) -> parse_from PNone (fs ++ [f]) = (ps', cs ++ o).
+Proof. intros H fs Hf. rewrite parse_from_snoc, Hf, H. reflexivity. Qed.
+
+Lemma parse_emit0 ps cs f ps' :
+  parse_step ps f = (ps', []) ->
+  forall fs, parse_from PNone fs = (ps, cs) -> parse_from PNone (fs ++ [f]) = (ps', cs).
+Proof. intros H fs Hf. rewrite <- (app_nil_r cs). eapply parse_emit; eauto. Qed.
+
+Ltac cg := try tauto; try (intros; congruence); try (let Ht := fresh in intros Ht; match goal with H : _ = true -> _ = SIdle |- _ => specialize (H Ht) end; congruence).
+Lemma parse_step_data (ps : pst) (cu : list N) (first last : bool) (c : list N) :
+  ps <> PFin -> (if first then cu = [] else ps = PData cu) ->
+  parse_step ps (FData first last c) = if last then (PNone, [MData (cu ++ c)]) else (PData (cu ++ c), []).
+Proof. intros Hp H. unfold parse_step. destruct ps; try congruence; destruct first; subst; try discriminate; try reflexivity; injection H as <-; reflexivity. Qed.
+
+Lemma parse_step_ports (ps : pst) (cu : list N) (first last : bool) (c : list N) :
+  ps <> PFin -> (if first then cu = [] else ps = PPorts cu) ->
+  parse_step ps (FPorts first last c) = if last then (PNone, [MPorts (cu ++ c)]) else (PPorts (cu ++ c), []).
+Proof. intros Hp H. unfold parse_step. destruct ps; try congruence; destruct first; subst; try discriminate; try reflexivity; injection H as <-; reflexivity. Qed.
+
+Ltac sfin := unfold inv_str; prj; rw; repeat split; auto; rewrite <- ?app_assoc; cbn [app]; auto.
+
+Lemma inv_str_step md mp s a s' :
+  inv_n s -> inv_str md mp s -> step_opt s a = Some s' -> inv_str md mp s'.
+Proof.
+  intros Hn (Hfifo & (ps & Hpar & Hdr & Hdr2 & Hop) & Hfeed) H.
+  assert (Hdead : dead s' = None) by (destruct (inv_n_step _ _ _ Hn H) as [(_ & Hd' & _) _]; exact Hd').
+  destruct Hn as [(Hc & _) Hwf].
+  pose proof Hc as (Hc1 & _). change CFG_MIN_CHUNK_SIZE with 4 in Hc1.
+  destruct a; unfold step_opt in H.
+  - (* USend *) cases. sfin. exists ps. repeat split; auto; cg.
+  - (* UTrySend *)
+    cases; try (sfin; exists ps; repeat split; auto; fail).
+    + (* empty *)
+      unfold inv_str; prj. repeat split; auto.
+      * rewrite <- Hfifo. now rewrite !app_assoc.
+      * exists PNone. split.
+        -- eapply parse_emit; eauto. unfold parse_step. destruct ps; try reflexivity. exfalso. now apply Hdr.
+        -- rewrite E in *. repeat split; auto. discriminate.
+    + (* chunks *)
+      match goal with E : try_chunks ?f ?c ?d ?fi ?sl = (?fs, ?ok) |- _ =>
+        pose proof (try_chunks_parse f c ltac:(lia) d fi sl ps [] ltac:(cbn [length]; lia) (Hdr eq_refl)
+                      ltac:(discriminate) eq_refl) as Hp; rewrite E in Hp; destruct Hp as (ps' & Hps' & Hp)
+      end.
+      assert (Hfi : forall X, consumed s ++ rxq s ++ link s ++ evq s ++ X = emitted s ++ X).
+      { intros. rewrite <- Hfifo. now rewrite <- !app_assoc. }
+      destruct b; unfold inv_str; prj; (repeat split; auto).
+      * exists PNone. rewrite parse_from_app, Hpar, Hp. cbn [app]. split; auto. rewrite E in *. repeat split; auto. discriminate.
+      * exists ps'. rewrite parse_from_app, Hpar, Hp. rewrite app_nil_r. split; auto. rewrite E in *. repeat split; auto.
+  - (* UChunkStart *) cases. sfin. exists ps. repeat split; auto; cg.
+  - (* UChunk *) cases. sfin. exists ps. repeat split; auto; cg.
+  - (* UConnect *) cases; sfin; exists ps; repeat split; auto; cg.
+  - (* UCancel *) cases; sfin; exists ps; repeat split; auto.
+  - (* UDropTx *) cases. unfold inv_str; prj. repeat split; auto.
+    + rewrite <- Hfifo. now rewrite !app_assoc.
+    + exists PFin. split.
+      * rewrite <- (app_nil_r (completed s)). eapply parse_emit; eauto. unfold parse_step. destruct ps; reflexivity.
+      * unfold op_parse. rewrite E. repeat split; auto; discriminate.
+  - (* TReq *) cases; sfin; exists ps; repeat split; auto; cg.
+  - (* TEmit *)
+    destruct (slot_free s) eqn:Esf; [|discriminate].
+    assert (Hfi : forall f, consumed s ++ rxq s ++ link s ++ evq s ++ [f] = emitted s ++ [f]).
+    { intros. rewrite <- Hfifo. now rewrite <- !app_assoc. }
+    destruct (op s) as [|cs rest empty first a fin|first a|rest first a] eqn:Eop; try discriminate.
+    + (* data *)
+      destruct (a =? 0); [discriminate|]. destruct Hop as [Hop Hcs].
+      assert (Htd : tx_dropped s = false) by (destruct (tx_dropped s); auto; specialize (Hdr2 eq_refl); discriminate).
+      specialize (Hdr Htd).
+      destruct empty.
+      * pose proof (parse_step_data ps (cur s) first fin [] Hdr Hop) as Hps. rewrite app_nil_r in Hps.
+        destruct cs; [destruct fin|rewrite (Hcs eq_refl) in *]; injection H as <-; unfold inv_str; prj;
+          (repeat split; auto; eexists; (split; [first [eapply parse_emit0; now eauto | eapply parse_emit; now eauto]|]));
+          rewrite ?app_nil_r; unfold op_parse; repeat split; auto; try discriminate; cg.
+      * set (m := N.to_nat (N.min (N.min (len rest) (chunk (cfg s))) a)) in *.
+        destruct (skipn m rest) as [|y r'] eqn:Esk.
+        -- pose proof (parse_step_data ps (cur s) first (true && fin) (firstn m rest) Hdr Hop) as Hps.
+           destruct cs; [destruct fin|rewrite (Hcs eq_refl) in *]; cbn [andb] in *; injection H as <-; unfold inv_str; prj;
+             (repeat split; auto; eexists; (split; [first [eapply parse_emit0; now eauto | eapply parse_emit; now eauto]|]));
+             rewrite ?app_nil_r; unfold op_parse; repeat split; auto; try discriminate; cg.
+        -- pose proof (parse_step_data ps (cur s) first (false && fin) (firstn m rest) Hdr Hop) as Hps.
+           cbn [andb] in *. injection H as <-. unfold inv_str; prj.
+           repeat split; auto; eexists; (split; [first [eapply parse_emit0; now eauto | eapply parse_emit; now eauto]|]);
+             rewrite ?app_nil_r; unfold op_parse; repeat split; auto; try discriminate; cg.
+    + (* ports *)
+      destruct (a <? 4); [discriminate|].
+      assert (Htd : tx_dropped s = false) by (destruct (tx_dropped s); auto; specialize (Hdr2 eq_refl); discriminate).
+      specialize (Hdr Htd).
+      set (k := N.to_nat (N.min (len rest) (N.min (chunk (cfg s)) a / 4))) in *.
+      destruct (skipn k rest) as [|y r'] eqn:Esk.
+      * pose proof (parse_step_ports ps (cur s) first true (firstn k rest) Hdr Hop) as Hps.
+        injection H as <-. unfold inv_str; prj.
+        repeat split; auto; eexists; (split; [first [eapply parse_emit0; now eauto | eapply parse_emit; now eauto]|]);
+          rewrite ?app_nil_r; unfold op_parse; repeat split; auto; try discriminate; cg.
+      * pose proof (parse_step_ports ps (cur s) first false (firstn k rest) Hdr Hop) as Hps.
+        injection H as <-. unfold inv_str; prj.
+        repeat split; auto; eexists; (split; [first [eapply parse_emit0; now eauto | eapply parse_emit; now eauto]|]);
+          rewrite ?app_nil_r; unfold op_parse; repeat split; auto; try discriminate; cg.
+  - (* TMux *) cases. unfold inv_str; prj; rw. repeat split; auto; [|exists ps; repeat split; auto].
+    rewrite <- Hfifo. rewrite <- !app_assoc. reflexivity.
+  - (* TLink *) cases; prj; try discriminate.
+    unfold inv_str; prj; rw. repeat split; auto; [|exists ps; repeat split; auto].
+    rewrite <- Hfifo; rewrite <- ?app_assoc; cbn [app]; auto.
+  - (* RConsume *)
+    cases; unfold inv_str; prj; rw;
+      (repeat split; auto; [rewrite <- Hfifo; rewrite <- ?app_assoc; reflexivity | exists ps; repeat split; auto
+                           | rewrite feed_all_snoc, Hfeed; match goal with E : feed _ _ _ = _ |- _ => rewrite E end; reflexivity]).
+  - (* RFlush *) cases; sfin; exists ps; repeat split; auto.
+  - (* TCredMux *) cases; sfin; exists ps; repeat split; auto.
+  - (* TCredLink *) cases; sfin; exists ps; repeat split; auto.
+  - (* TClose *) cases; sfin; exists ps; repeat split; auto.
+Qed.
+
+(** ** every reachable state satisfies the invariants *)
+Definition Inv (md mp : N) (s : st) : Prop := inv_n s /\ inv_str md mp s.
+
+Lemma Inv_step md mp s a : Inv md mp s -> Inv md mp (step s a).
+Proof.
+  intros [Hn Hs]. unfold step. destruct (step_opt s a) as [s'|] eqn:E; [|split; auto].
+  split; [eapply inv_n_step; eauto|eapply inv_str_step; eauto].
+Qed.
+
+Lemma Inv_run c md mp acts : cfg_ok c -> Inv md mp (run acts (init c md mp)).
+Proof.
+  intros Hc. unfold run.
+  assert (H0 : Inv md mp (init c md mp)).
+  { split; [split; [now apply inv_num_init|exact I]|apply inv_str_init]. }
+  revert H0. generalize (init c md mp) as s. induction acts as [|a acts IH]; intros s H0; cbn [fold_left]; auto.
+  apply IH. now apply Inv_step.
+Qed.
+
+Lemma filter_prefix {A} (f : A -> bool) l1 l2 : prefix l1 l2 -> prefix (filter f l1) (filter f l2).
+Proof. intros [r ->]. exists (filter f r). apply filter_app. Qed.
+
+(** C01: what the receiver has obtained is a prefix of the completed sends *)
+Lemma delivery_prefix md mp s :
+  Inv md mp s -> prefix (data_of (delivered_msgs (delivered s))) (data_of (completed s)).
+Proof.
+  intros [_ (Hfifo & (ps & Hpar & _) & Hfeed)].
+  pose proof (recv_refines_parse md mp (consumed s)) as Hr. rewrite Hfeed in Hr. rewrite Hr.
+  apply filter_prefix.
+  replace (completed s) with (parse (emitted s)) by (unfold parse; now rewrite Hpar).
+  rewrite <- Hfifo. apply parse_prefix.
+Qed.
+
+(** C01: everything handed over by completed sends and consumed by the receiver has been obtained *)
+Lemma delivery_complete md mp s :
+  Inv md mp s -> rxq s = [] -> link s = [] -> evq s = [] ->
+  (op s = SIdle \/ exists f a, op s = SChunkIdle f a) ->
+  data_of (delivered_msgs (delivered s)) = data_of (completed s).
+Proof.
+  intros [_ (Hfifo & (ps & Hpar & _) & Hfeed)] H1 H2 H3 _.
+  pose proof (recv_refines_parse md mp (consumed s)) as Hr. rewrite Hfeed in Hr. rewrite Hr.
+  rewrite H1, H2, H3, !app_nil_r in Hfifo. rewrite Hfifo. unfold parse. now rewrite Hpar.
+Qed.
+
+(** C02 *)
+Lemma wire_bound md mp s : Inv md mp s -> sent_cost s <= granted s + limit (cfg s) /\ dead s = None.
+Proof. intros [[(Hc & Hd & Hcons & Hth & Hsent & Hgr & Hok) _] _]. split; [lia|exact Hd]. Qed.
+
+Lemma chunk_bound md mp s : Inv md mp s -> Forall (fun f => frame_ok (chunk (cfg s)) f = true) (link s).
+Proof. intros [[(Hc & Hd & Hcons & Hth & Hsent & Hgr & Hok) _] _]. apply Forall_app in Hok. tauto. Qed.
+
+Lemma grant_bound md mp s : Inv md mp s -> granted s <= costs (consumed s).
+Proof. intros [[(Hc & Hd & Hcons & Hth & Hsent & Hgr & Hok) _] _]. lia. Qed.
+
+(** C03: conservation = no leak *)
+Lemma conservation md mp s :
+  Inv md mp s ->
+  pool s + assigned_of (op s) + costs (evq s) + costs (link s) + costs (rxq s) + to_return s
+    + pend (ret_pending s) + sum (cred_evq s) + sum (cred_link s) = limit (cfg s).
+Proof. intros [[(Hc & Hd & Hcons & _) _] _]. exact Hcons. Qed.
+
+Definition quiet (s : st) : Prop :=
+  evq s = [] /\ link s = [] /\ rxq s = [] /\ ret_pending s = None /\ cred_evq s = [] /\ cred_link s = [].
+
+Lemma threshold_lemma md mp s : Inv md mp s -> quiet s -> 4 <= pool s + assigned_of (op s).
+Proof.
+  intros [[(Hc & Hd & Hcons & Hth & _) _] _] (H1 & H2 & H3 & H4 & H5 & H6).
+  destruct Hc as (_ & Hc2 & _). change CFG_MIN_RECEIVE_BUFFER with 4 in Hc2.
+  rewrite H1, H2, H3, H4, H5, H6 in Hcons. cbn [costs map sum pend] in Hcons.
+  unfold return_threshold in Hth. destruct (N.leb_spec 8 (limit (cfg s))); lia.
+Qed.
+
+(** an internal action that moves a frame or credits *)
+Definition internal : list act := [TMux; TLink; RConsume; RFlush; TCredMux; TCredLink].
+
+Lemma not_quiet_enabled md mp s :
+  Inv md mp s -> ~ quiet s -> exists a s', In a internal /\ step_opt s a = Some s'.
+Proof.
+  intros [[(Hc & Hd & Hcons & Hth & Hsent & Hgr & Hok) _] _] Hnq.
+  destruct Hc as (_ & _ & Hl & _ & _ & Hcr). unfold U32_MAX in *.
+  destruct (evq s) as [|f q] eqn:E1.
+  2:{ exists TMux. eexists. split; [cbn; auto|]. cbn [step_opt]. now rewrite E1. }
+  destruct (cred_evq s) as [|c q] eqn:E5.
+  2:{ exists TCredMux. eexists. split; [cbn; auto 10|]. cbn [step_opt]. now rewrite E5. }
+  destruct (cred_link s) as [|c q] eqn:E6.
+  2:{ exists TCredLink. eexists. split; [cbn; auto 10|]. cbn [step_opt]. rewrite E6, Hd.
+      cbn [sum] in Hcons. destruct (N.leb_spec (pool s + c) U32_MAX); unfold U32_MAX in *; [reflexivity|lia]. }
+  destruct (ret_pending s) as [c|] eqn:E4.
+  { exists RFlush. eexists. split; [cbn; auto 10|]. cbn [step_opt]. rewrite E4, E5.
+    change (@len N []) with 0. destruct (N.ltb_spec 0 (cap_r (cfg s))); [reflexivity|lia]. }
+  destruct (link s) as [|f q] eqn:E2.
+  2:{ exists TLink. apply Forall_app in Hok as [_ Hob]. rewrite ?E2 in Hob. inversion Hob; subst.
+      match goal with H : frame_ok _ f = true |- _ => rename H into Hf end.
+      eexists. split; [cbn; auto|]. cbn [step_opt]. rewrite E2, Hd, Hf. cbn [negb].
+      rewrite costs_cons in Hcons.
+      destruct (N.leb_spec (costs (rxq s) + cost f) (limit (cfg s))); [reflexivity|lia]. }
+  destruct (rxq s) as [|f q] eqn:E3.
+  { exfalso. apply Hnq. unfold quiet. rewrite E1, E2, E3, E4, E5, E6. tauto. }
+  exists RConsume. cbn [step_opt]. rewrite E3, E4.
+  destruct (feed (cm s) (rcv s) f) as [[m' r'] o].
+  destruct (return_threshold (limit (cfg s)) <=? to_return s + cost f);
+    [destruct (len (cred_evq s) <? cap_r (cfg s))|]; eexists; (split; [cbn; auto 10|reflexivity]).
+Qed.
+
+Lemma classic_quiet s : quiet s \/ ~ quiet s.
+Proof.
+  unfold quiet.
+  destruct (evq s); [|right; intros (H & _); discriminate].
+  destruct (link s); [|right; intros (_ & H & _); discriminate].
+  destruct (rxq s); [|right; intros (_ & _ & H & _); discriminate].
+  destruct (ret_pending s); [right; intros (_ & _ & _ & H & _); discriminate|].
+  destruct (cred_evq s); [|right; intros (_ & _ & _ & _ & H & _); discriminate].
+  destruct (cred_link s); [|right; intros (_ & _ & _ & _ & _ & H); discriminate].
+  left. tauto.
+Qed.
+
+(** the operation in progress lacks the credits for its next frame *)
+Definition needs_credit (o : sop) : bool :=
+  match o with
+  | SData _ _ _ _ a _ => a =? 0
+  | SPorts _ _ a => a <? 4
+  | _ => false
+  end.
+Definition running (o : sop) : bool :=
+  match o with SData _ _ _ _ _ _ | SPorts _ _ _ => true | _ => false end.
+
+(** C03: no deadlock, no lost credit: a running operation can always take its next step unless
+    frames or credits are still on their way (in which case an internal action is enabled). *)
+Lemma progress md mp s :
+  Inv md mp s -> running (op s) = true -> closed s = None ->
+  (exists a s', In a internal /\ step_opt s a = Some s') \/
+  (needs_credit (op s) = true /\ exists s', step_opt s TReq = Some s' /\ needs_credit (op s') = false /\ running (op s') = true) \/
+  (needs_credit (op s) = false /\ exists s', step_opt s TEmit = Some s').
+Proof.
+  intros HI Hrun Hcl.
+  destruct (classic_quiet s) as [Hq|Hnq].
+  2:{ left. eapply not_quiet_enabled; eauto. }
+  right. pose proof (threshold_lemma _ _ _ HI Hq) as Hth.
+  destruct HI as [[(Hc & Hd & Hcons & _) Hwf] _]. destruct Hq as (H1 & _).
+  destruct Hc as (_ & _ & _ & _ & Hcs & _).
+  assert (Hsf : slot_free s = true).
+  { unfold slot_free. rewrite H1. change (@len frame []) with 0. lia. }
+  destruct (op s) as [|cs rest empty first a fin|first a|rest first a] eqn:Eop; try discriminate; cbn [needs_credit assigned_of op_wf] in *.
+  - destruct (N.eqb_spec a 0) as [->|Ha].
+    + left. split; [reflexivity|]. cbn [step_opt]. rewrite Eop, Hcl.
+      destruct (N.leb_spec 1 (pool s)); [|lia]. eexists. split; [reflexivity|]. prj. cbn [needs_credit running].
+      split; [|reflexivity]. destruct empty; [lia|]. pose proof (len_pos_nonempty rest Hwf). unfold U32_MAX. lia.
+    + right. split; [reflexivity|]. cbn [step_opt]. rewrite Hsf, Eop.
+      destruct (N.eqb_spec a 0); [lia|].
+      destruct empty; [destruct cs; [destruct fin|]|]; try (eexists; reflexivity).
+      destruct (skipn _ rest); [destruct cs; [destruct fin|]|]; eexists; reflexivity.
+  - destruct (N.ltb_spec a 4) as [Ha|Ha].
+    + left. split; [reflexivity|]. cbn [step_opt]. rewrite Eop, Hcl.
+      destruct (N.ltb_spec a 4); [|lia]. destruct (N.leb_spec 4 (pool s + a)); [|lia].
+      eexists. split; [reflexivity|]. prj. cbn [needs_credit running]. split; [|reflexivity].
+      pose proof (len_pos_nonempty rest Hwf). unfold U32_MAX. lia.
+    + right. split; [reflexivity|]. cbn [step_opt]. rewrite Hsf, Eop.
+      destruct (N.ltb_spec a 4); [lia|]. destruct (skipn _ rest); eexists; reflexivity.
+Qed.
+
+(** ** termination measure: no operation emits frames forever *)
+Definition mu (o : sop) : N :=
+  match o with
+  | SData _ rest empty _ a _ => 2 * (len rest + (if empty then 1 else 0)) + (if a =? 0 then 1 else 0)
+  | SPorts rest _ a => 2 * len rest + (if a <? 4 then 1 else 0)
+  | _ => 0
+  end.
+
+Lemma emit_decreases md mp s s' : Inv md mp s -> step_opt s TEmit = Some s' -> mu (op s') < mu (op s).
+Proof.
+  intros [[(Hc & _) Hwf] _] H. destruct Hc as (Hc1 & _). change CFG_MIN_CHUNK_SIZE with 4 in Hc1.
+  cbn [step_opt] in H. destruct (slot_free s); [|discriminate].
+  destruct (op s) as [|cs rest empty first a fin|first a|rest first a] eqn:Eop; try discriminate; cbn [op_wf mu] in *.
+  - destruct (N.eqb_spec a 0) as [|Ha]; [discriminate|].
+    destruct empty.
+    + subst rest. destruct cs; [destruct fin|]; injection H as <-; prj; cbn [mu]; change (@len N []) with 0; lia.
+    + set (m := N.min (N.min (len rest) (chunk (cfg s))) a) in *.
+      pose proof (len_pos_nonempty rest Hwf) as Hr1.
+      pose proof (len_firstn_skipn rest (N.to_nat m)) as Hfs.
+      assert (Hlc : len (firstn (N.to_nat m) rest) = m) by (unfold len; rewrite firstn_length; unfold len in *; lia).
+      destruct (skipn (N.to_nat m) rest) as [|y r'] eqn:Esk.
+      * destruct cs; [destruct fin|]; injection H as <-; prj; cbn [mu]; lia.
+      * injection H as <-. prj. cbn [mu]. destruct (a - len (firstn (N.to_nat m) rest) =? 0); lia.
+  - destruct (N.ltb_spec a 4) as [|Ha]; [discriminate|].
+    set (k := N.min (len rest) (N.min (chunk (cfg s)) a / 4)) in *.
+    pose proof (len_pos_nonempty rest Hwf) as Hr1.
+    pose proof (len_firstn_skipn rest (N.to_nat k)) as Hfs.
+    assert (Hlc : len (firstn (N.to_nat k) rest) = k) by (unfold len; rewrite firstn_length; unfold len in *; lia).
+    destruct (skipn (N.to_nat k) rest) as [|y r'] eqn:Esk.
+    + injection H as <-. prj. cbn [mu]. lia.
+    + injection H as <-. prj. cbn [mu]. destruct (a - 4 * len (firstn (N.to_nat k) rest) <? 4); lia.
+Qed.
+
+Lemma req_decreases s s' :
+  step_opt s TReq = Some s' -> running (op s') = true -> needs_credit (op s') = false -> mu (op s') < mu (op s).
+Proof.
+  intros H Hr Hn. cbn [step_opt] in H.
+  destruct (op s) as [|cs rest empty first a fin|first a|rest first a] eqn:Eop; try discriminate.
+  - destruct a; try discriminate. destruct (closed s); [injection H as <-; prj; discriminate|].
+    destruct (1 <=? pool s); [|discriminate]. injection H as <-. prj. cbn [mu needs_credit] in *.
+    rewrite Hn. change (0 =? 0) with true. cbv iota. lia.
+  - destruct (N.ltb_spec a 4) as [Ha|]; [|discriminate].
+    destruct (closed s); [injection H as <-; prj; discriminate|].
+    destruct (4 <=? pool s + a); injection H as <-; prj; cbn [mu needs_credit] in *; [|discriminate].
+    rewrite Hn. destruct (N.ltb_spec a 4); lia.
+Qed.
+
+Lemma emitted_parse md mp s : Inv md mp s -> parse (emitted s) = completed s.
+Proof. intros [_ (_ & (ps & Hpar & _) & _)]. unfold parse. now rewrite Hpar. Qed.
